@@ -38,6 +38,7 @@ M_Specs ==
       [] Scenario = "sts-immutable" -> [x \in {"s-0"} |-> Sp("sts", "s", "", 1, <<>>)]
       [] Scenario = "sts-two"       -> ("s-0" :> Sp("sts", "s", "", 0, <<>>)) @@ ("s-1" :> Sp("sts", "s", "", 0, <<>>))
       [] Scenario = "dp-immutable"  -> ("d-a" :> Sp("dp", "d", "", 1, <<>>)) @@ ("d-b" :> Sp("dp", "d", "", 1, <<>>))
+      [] Scenario = "dp-scale"      -> ("d-a" :> Sp("dp", "d", "", 1, <<>>)) @@ ("d-b" :> Sp("dp", "d", "", 1, <<>>))
       [] Scenario = "dp-pool"       -> ("d-a" :> Sp("dp", "d", "pl", 2, <<>>)) @@ ("e-a" :> Sp("dp", "e", "pl", 2, <<>>))
       \* C06: an immutable pod (holder when rescheduled), a default one, and a two-range pod, on a topology with a pool
       \* routable from two node subnets, a pool routable from one, and a node in no pool's subnet
@@ -53,8 +54,8 @@ M_Configs ==
                                           p3 |-> [subnets |-> {"s1"}, ips |-> {"ip3"}]] >>
       [] OTHER -> << [p1 |-> [subnets |-> {"s1"}, ips |-> {"ip1", "ip2"}]] >>
 M_CloudOn == Scenario \in {"sts-cloud"}
-M_Sts == IF Scenario \in {"dp-immutable", "dp-pool"} THEN Emp ELSE IF Scenario = "topo-ranges" THEN ("s" :> 2) @@ ("m" :> 1) ELSE ("s" :> 2)
-M_Dp == IF Scenario = "dp-immutable" THEN ("d" :> 1) ELSE IF Scenario = "dp-pool" THEN ("d" :> 1) @@ ("e" :> 1) ELSE Emp
+M_Sts == IF Scenario \in {"dp-immutable", "dp-pool", "dp-scale"} THEN Emp ELSE IF Scenario = "topo-ranges" THEN ("s" :> 2) @@ ("m" :> 1) ELSE ("s" :> 2)
+M_Dp == IF Scenario = "dp-immutable" THEN ("d" :> 1) ELSE IF Scenario = "dp-scale" THEN ("d" :> 2) ELSE IF Scenario = "dp-pool" THEN ("d" :> 1) @@ ("e" :> 1) ELSE Emp
 M_Pool == IF Scenario = "dp-pool" THEN ("pl" :> [size |-> 1, prealloc |-> FALSE]) ELSE Emp
 
 Init ==
@@ -169,7 +170,10 @@ ReleaseJustifiedM ==
           \/ ActorType = "apirelease"
           \/ /\ k.pod # "" /\ GoneM(k, mem[ip].uid, ip)
              /\ pl # 2 /\ k.pool = ""
-             /\ (pl = 1 /\ k.kind = "sts") => (k.app \notin DOMAIN sts \/ sts[k.app] < IndexOf(k.pod) + 1)]_mcvars
+             /\ (pl = 1 /\ k.kind = "sts") => (k.app \notin DOMAIN sts \/ sts[k.app] < IndexOf(k.pod) + 1)
+             \* an immutable deployment IP is released only while the app holds more IPs than replicas (or has none left)
+             /\ (pl = 1 /\ k.kind = "dp" /\ k.pool = "") =>
+                    (DpReplicas(k.app) = 0 \/ Cardinality({x \in DOMAIN mem : HasPrefix(mem[x].key, KeyPrefixOf(k))}) > DpReplicas(k.app))]_mcvars
 \* C10
 CloudSingleNodeM == [][\A ip \in (DOMAIN cloud) \cap (DOMAIN cloud') : cloud'[ip] = cloud[ip]]_mcvars
 UnassignBeforeHandoverM == [][CloudOn => \A ip \in FreedM \cup RekeyedM : ip \notin DOMAIN cloud]_mcvars
